@@ -16,90 +16,14 @@ verus! {
 
 global size_of usize == 8;
 
-/// bit `i` of `v`
-pub open spec fn wbit(v: nat, i: nat) -> bool {
-    (v / pow2(i)) % 2 == 1
-}
-
-/// the n low bits of v, MSB first (BE) / LSB first (LE)
-pub open spec fn wfield(le: bool, v: nat, n: nat) -> Seq<bool> {
-    Seq::new(n, |i: int| if le { wbit(v, i as nat) } else { wbit(v, (n - 1 - i) as nat) })
-}
-
-/// the p pending bits of a writer buffer in stream order: BE keeps them in the
-/// p low bits (oldest = most significant of those), LE in the p high bits
-/// (oldest = least significant of those)
-pub open spec fn wpending(le: bool, b: nat, p: nat) -> Seq<bool> {
-    Seq::new(p, |i: int| if le { wbit(b, ({{BITS}} - p + i) as nat) } else { wbit(b, (p - 1 - i) as nat) })
-}
+pub struct BE;
+pub struct LE;
 
 pub open spec fn unary(x: nat) -> Seq<bool> {
     Seq::new(x + 1, |i: int| i == x)
 }
 
-pub open spec fn zeros(n: nat) -> Seq<bool> {
-    Seq::new(n, |i: int| false)
-}
-
-pub struct BE;
-pub struct LE;
-
-// byte-order conversions: uninterpreted, with the two facts the proof needs
-// (discharged for every value by the Kani obligations std_spec.to_be_* / to_le_*)
-pub uninterp spec fn spec_to_be(x: {{W}}) -> {{W}};
-pub uninterp spec fn spec_from_be(x: {{W}}) -> {{W}};
-pub uninterp spec fn spec_to_le(x: {{W}}) -> {{W}};
-pub uninterp spec fn spec_from_le(x: {{W}}) -> {{W}};
-pub assume_specification[ {{W}}::to_be ](x: {{W}}) -> (r: {{W}}) ensures r == spec_to_be(x);
-pub assume_specification[ {{W}}::to_le ](x: {{W}}) -> (r: {{W}}) ensures r == spec_to_le(x);
-#[verifier::external_body]
-pub proof fn axiom_be(x: {{W}}) ensures spec_from_be(spec_to_be(x)) == x, spec_to_be(0) == 0 {}
-#[verifier::external_body]
-pub proof fn axiom_le(x: {{W}}) ensures spec_from_le(spec_to_le(x)) == x, spec_to_le(0) == 0 {}
-
-/// the stream bits of a sequence of delivered words (canonical image: a word
-/// delivered by a BE writer is `x.to_be()`, whose memory bytes are x's bytes most
-/// significant first; by an LE writer `x.to_le()`)
-pub open spec fn words_bits(le: bool, ws: Seq<{{W}}>) -> Seq<bool> decreases ws.len() {
-    if ws.len() == 0 { Seq::empty() } else {
-        words_bits(le, ws.drop_last()) + wfield(le, (if le { spec_from_le(ws.last()) } else { spec_from_be(ws.last()) }) as nat, {{BITS}})
-    }
-}
-
-pub trait WordWrite {
-    type Error;
-    spec fn words(&self) -> Seq<{{W}}>;
-    fn write_word(&mut self, word: {{W}}) -> (r: Result<(), Self::Error>)
-        ensures r is Ok ==> final(self).words() == old(self).words().push(word);
-}
-
-//@FIELDS file=src/impls/buf_bit_writer.rs item=/pub struct BufBitWriter</ <<backend: WW>> <<buffer: WW::Word>> <<space_left_in_buffer: usize>>
-pub struct BufBitWriter<E, WW: WordWrite> {
-    backend: WW,
-    buffer: {{W}},
-    space_left_in_buffer: usize,
-    _marker_endianness: core::marker::PhantomData<E>,
-}
-
-/// bit i of v, machine form
-pub proof fn lemma_wbit(v: {{W}}, i: nat)
-    requires i < {{BITS}},
-    ensures wbit(v as nat, i) == ((v >> (i as {{W}})) & 1 == 1),
-{
-    lemma_{{W}}_shr_is_div(v, i as {{W}});
-    let s = v >> (i as {{W}});
-    assert(s & 1 == s % 2) by (bit_vector);
-}
-
-pub proof fn lemma_push(le: bool, ws: Seq<{{W}}>, w: {{W}})
-    ensures words_bits(le, ws.push(w)) == words_bits(le, ws) + wfield(le, (if le { spec_from_le(w) } else { spec_from_be(w) }) as nat, {{BITS}}),
-{
-    assert(ws.push(w).drop_last() =~= ws);
-}
-
-pub proof fn lemma_full_pending(le: bool, b: {{W}})
-    ensures wpending(le, b as nat, {{BITS}}) =~= wfield(le, b as nat, {{BITS}}),
-{}
+//@INCLUDE writer_defs.inc
 
 // ---------------------------------------------------------------- BE
 pub proof fn lemma_be_append_unary(b: {{W}}, p: nat, v: nat)
